@@ -78,8 +78,10 @@ Check(ev, prev) ==
   \cup {F("C10", "own handle not alive when the creation returned", cr[k].h) : k \in {j \in 1..Len(cr) : ~cr[j].alive}}
   \cup {F("C10", "deletion request: result differs from the handle's aliveness (handle, result)", <<de[k].h, de[k].ok>>)
           : k \in {j \in 1..Len(de) : de[j].ok # (de[j].h \in liveH)}}
-  \cup (IF "post" \in DOMAIN ev /\ ~ev.post.ok
-        THEN {F("C10", "deleting entities created in this frame (alive, not merged yet) through exclusive access failed", ev.post.hs)} ELSE {})
+  \* (ev.post.stale: the batch ended with an already dead handle - then, and only then, the call fails,
+  \* after deleting the live ones before it)
+  \cup (IF "post" \in DOMAIN ev /\ ev.post.ok # ~("stale" \in DOMAIN ev.post /\ ev.post.stale)
+        THEN {F("C10", "deleting entities created in this frame (alive, not merged yet) through exclusive access: wrong result (handles, result)", <<ev.post.hs, ev.post.ok>>)} ELSE {})
   \cup (IF SeqToSet(ev.after.alive) # wantAlive
         THEN {F("C10", "after maintain: alive # initial + created - requested (got, expected)", <<ev.after.alive, SortedById(wantAlive)>>)} ELSE {})
   \cup (IF ev.after.join # SortedById(wantAlive)
